@@ -69,8 +69,37 @@ impl CacheKey {
 ///
 /// Removes extra whitespace and normalizes case for keywords.
 fn normalize_query(query: &str) -> String {
-    // Simple normalization: collapse whitespace
-    query.split_whitespace().collect::<Vec<_>>().join(" ")
+    // Simple normalization: collapse whitespace between tokens. Whitespace inside a
+    // quoted literal is part of the query's meaning and must be kept, otherwise
+    // `'a  b'` and `'a b'` would share one cached plan.
+    let mut out = String::with_capacity(query.len());
+    let mut quote: Option<char> = None;
+    let mut pending_space = false;
+    let mut escaped = false;
+    for c in query.chars() {
+        if let Some(q) = quote {
+            out.push(c);
+            if escaped {
+                escaped = false;
+            } else if c == '\\' {
+                escaped = true;
+            } else if c == q {
+                quote = None;
+            }
+        } else if c.is_whitespace() {
+            pending_space = true;
+        } else {
+            if pending_space && !out.is_empty() {
+                out.push(' ');
+            }
+            pending_space = false;
+            if c == '\'' || c == '"' || c == '`' {
+                quote = Some(c);
+            }
+            out.push(c);
+        }
+    }
+    out
 }
 
 /// Entry in the cache with metadata.
